@@ -1,6 +1,7 @@
 package cputensor
 
 import "github.com/sahandsafizadeh/qeep/tensor/internal/tensor"
+import "github.com/sahandsafizadeh/qeep/tensor/internal/verifhook"
 
 func (t *CPUTensor) numElems() (n int) {
 	n = 1
@@ -35,6 +36,7 @@ func (t *CPUTensor) copiedSliceOf(index []tensor.Range) (o *CPUTensor) {
 	var copyData func([]tensor.Range, *any, *any)
 	copyData = func(index []tensor.Range, src, dst *any) {
 		if len(index) == 0 {
+			verifhook.Point("copyElem")
 			*dst = (*src).(float64)
 			return
 		}
@@ -68,6 +70,7 @@ func (t *CPUTensor) copiedWithPatchOf(index []tensor.Range, u *CPUTensor) (o *CP
 	var copyData func([]tensor.Range, *any, *any)
 	copyData = func(index []tensor.Range, src, dst *any) {
 		if len(index) == 0 {
+			verifhook.Point("copyElem")
 			*dst = (*src).(float64)
 			return
 		}
